@@ -102,7 +102,7 @@ def conc_check(lines, rep):
 def run(tier, seed, replay):
     rep = Report("C19", tier, seed)
     thorough = tier == "thorough"
-    ok, info = proof_stage(rep, MODULE, thorough=thorough)
+    ok, info = proof_stage(rep, MODULE, thorough=thorough, also=("KyroModel.Theorems.C19FirstUse",))
     bok, blog, bsecs = cargo_build()
     if not bok:
         rep.violation(rep.write_replay("harness_build.log", blog[-4000:]), no_input=True)
